@@ -37,8 +37,10 @@ def taggedOfSexp : Sexp → Option Tagged
       some { tagName := name, members := ms, dflt := d }
   | _ => none
 
-def cellAt (cs : List Cell) (l : Nat) : Bool :=
+/-- is the identity of the cell at `l` observable?  (an instance of a NamedTuple class is an immutable tuple) -/
+def cellAt (w : World) (cs : List Cell) (l : Nat) : Bool :=
   match cs[l]? with
+  | some (.inst c _) => !w.isNT c
   | some c => c.mutable
   | none => false
 
@@ -47,7 +49,7 @@ def sortNat (xs : List Nat) : List Nat := (xs.toArray.qsort (· < ·)).toList
 def canonStr (o : Obj) : String := (sexpOfObj o).toString
 
 /-- run `m` on the freshly loaded argument and describe the outcome -/
-def describe (o : Obj) (m : HVal → M HVal) (pure : Option (Option Obj)) : Sexp :=
+def describe (w : World) (o : Obj) (m : HVal → M HVal) (pure : Option (Option Obj)) : Sexp :=
   match (inject o) { cells := [] } with
   | (none, _) => .atom "unmodelled"
   | (some v, st0) =>
@@ -67,9 +69,9 @@ def describe (o : Obj) (m : HVal → M HVal) (pure : Option (Option Obj)) : Sexp
       | some val =>
         let vs := sexpOfObj val
         if hasMark vs.toString then .atom "unmodelled" else
-        let locs := (reachList st1.cells 100000 [rv] []).filter (fun l => decide (l < n) && cellAt st1.cells l)
+        let locs := (reachList st1.cells 100000 [rv] []).filter (fun l => decide (l < n) && cellAt w st1.cells l)
         let root := match rv with
-          | .ref l => if l < n && cellAt st1.cells l then ofNat l else .atom "-"
+          | .ref l => if l < n && cellAt w st1.cells l then ofNat l else .atom "-"
           | .leaf _ => .atom "-"
         let agree := match pure with
           | none => Sexp.atom "-"
@@ -85,11 +87,11 @@ def heapHandle (op : String) (args : List Sexp) : Option Sexp :=
       let hc : HCfg := { cfg := cfg, ovr := ovr }
       if dir == "un" then
         if !conf w ty o then some (.atom "unmodelled")
-        else some (describe o (run w hc fuelD (.un ty))
+        else some (describe w o (run w hc fuelD (.un ty))
           (if ovr.isEmpty then some (some (convUnstructure w cfg ty o)) else none))
       else if dir == "st" then
         if unmodelledST w cfg ty o then some (.atom "unmodelled")
-        else some (describe o (run w hc fuelD (.st ty))
+        else some (describe w o (run w hc fuelD (.st ty))
           (if ovr.isEmpty then some (convStructure w cfg ty o) else none))
       else none
   | "ALIAS-TAGGED", [wd, cfg, .atom dir, tg, o] => do
@@ -98,7 +100,7 @@ def heapHandle (op : String) (args : List Sexp) : Option Sexp :=
       if dir == "un" then
         match o with
         | .inst c _ => if !conf w (.cls c) o then some (.atom "unmodelled")
-                       else some (describe o (runTagged w hc fuelD tg false) none)
+                       else some (describe w o (runTagged w hc fuelD tg false) none)
         | _ => some (.atom "unmodelled")
       else if dir == "st" then
         match o with
@@ -108,7 +110,7 @@ def heapHandle (op : String) (args : List Sexp) : Option Sexp :=
           if tg.members.any (fun m => unmodelledST w cfg (.cls m.1) o')
               || (match tg.dflt with | some d => unmodelledST w cfg (.cls d) o' | none => false)
           then some (.atom "unmodelled")
-          else some (describe o (runTagged w hc fuelD tg true) none)
+          else some (describe w o (runTagged w hc fuelD tg true) none)
         | _ => some (.atom "unmodelled")
       else none
   | _, _ => none
